@@ -76,6 +76,7 @@ type Options struct {
 	WrkStartID uint64
 	BeaconStartID uint64
 	Whitelist  []int
+	ExtraDenoms []string // further denominations in the genesis supply (held by account 0)
 	// node-local configuration (must not influence consensus results)
 	BaseAppOpts []func(*baseapp.BaseApp)
 	AppOpts     map[string]interface{}
@@ -160,6 +161,11 @@ func GenesisState(a *app.App, o Options, accts []Acct) []byte {
 			sdk.NewCoin(Denom2, math.NewInt(1_000_000_000_000)),
 			sdk.NewCoin(DenomBig, huge),
 		)
+		if ai == 0 {
+			for _, d := range o.ExtraDenoms {
+				coins = coins.Add(sdk.NewCoin(d, math.NewInt(1_000_000)))
+			}
+		}
 		base := authtypes.NewBaseAccount(ac.Addr, nil, 0, 0)
 		ov := sdk.NewCoins(sdk.NewInt64Coin(Denom, o.VestAmt))
 		st := StartTime.Unix()
